@@ -99,6 +99,7 @@ func (r *rwRT) ruleScopeAgree(seqForHolds bool, mode string) {
 			break
 		}
 		yielding, rootedOK, normalLowered := 0, 0, 0
+		nativePaths, nativeRewritten := 0, ""
 		r.switchBreakDepthBlind = false
 		example := ""
 		for _, p := range runShape(kind, func(string) bool { return true }) {
@@ -110,6 +111,39 @@ func (r *rwRT) ruleScopeAgree(seqForHolds bool, mode string) {
 				}
 			}
 			if !yieldPath {
+				// no clause yields: the statement is emitted as it is (possibly into the thunk of a yielding
+				// initialiser, where the statements after it share its thunk). Its breaks must still be breaks: a
+				// `return Normal()` there completes the whole thunk and skips what follows the switch.
+				if kind != "ForStmt" {
+					if rootObj := p.o.St.Obj(unwrap(p.in.root)); rootObj != nil {
+						body := rootObj.Fields["Body"]
+						bodyYields := false
+						for _, l := range p.o.St.Labels {
+							if l == "mustNoYield("+argLabel(body)+")=false" {
+								bodyYields = true // ... and no clause does: not a combination a program produces
+							}
+						}
+						if !bodyYields {
+							nativePaths++
+							for _, e := range p.o.St.Events {
+								if e.Kind != "call" || e.Fn == nil {
+									continue
+								}
+								walked := e.Fn.Name() == "Apply" && strings.Contains(fnPkgPath(e.Fn), "astutil") && len(e.Args) == 3 && sameAV(unwrap(e.Args[0]), unwrap(body))
+								if inRw(e.Fn) && isRecursiveAstWalk(e.Fn) {
+									for _, a := range e.Args {
+										if sameAV(unwrap(a), unwrap(body)) {
+											walked = true
+										}
+									}
+								}
+								if walked {
+									nativeRewritten = pathSummary(p.o)
+								}
+							}
+						}
+					}
+				}
 				continue
 			}
 			yielding++
@@ -159,6 +193,11 @@ func (r *rwRT) ruleScopeAgree(seqForHolds bool, mode string) {
 		if yielding == 0 {
 			c.und("RW.SCOPEAGREE", "yielding "+kind+" lowering", pos, "no yielding path found for "+kind)
 			continue
+		}
+		if kind != "ForStmt" && nativePaths > 0 {
+			c.check(nativeRewritten == "", "RW.SCOPEAGREE", "breaks of a "+strings.TrimSuffix(kind, "Stmt")+" without a yielding clause stay breaks", pos,
+				fmt.Sprintf("%d paths on which no clause yields: the body is not traversed for breaks", nativePaths),
+				"the body of a switch whose clauses do not yield (only its initialiser does) is traversed by the break rewriting: the switch is emitted as a native statement into the thunk of the initialiser's Bind, where `return Normal()` completes the whole thunk — `switch Yield(0); x { case 1: if c { break }; … }; after()` skips after(): "+nativeRewritten)
 		}
 		if normalLowered > 0 {
 			// `return Normal()` completes the thunk it stands in. That thunk is the rest of the clause when the break
